@@ -15,7 +15,7 @@ Definition x_parse_frames := parse_frames frame_table.
 Definition x_varint := decode_variable_length_int.
 Definition x_varint_len := get_variable_length_int_length.
 Definition x_cksum (off : Z) (v6 : bool) (src dst : bytes) (proto : Z) (sg : bytes) (fld : Z) :=
-  calculate_checksum off {| Checksum.ipv6 := v6; Checksum.ip_src := src; Checksum.ip_dst := dst; Checksum.proto := proto; Checksum.seg := sg; Checksum.field := fld |}.
+  calculate_checksum off (if Z.eqb off 16 then 6 else 17)%Z {| Checksum.ipv6 := v6; Checksum.ip_src := src; Checksum.ip_dst := dst; Checksum.proto := proto; Checksum.seg := sg; Checksum.field := fld |}.
 Definition x_occ := ones_complement_checksum.
 Definition x_derive_session_keys := derive_session_keys.
 Definition x_dev_initial_keys := dev_initial_keys.
